@@ -137,6 +137,7 @@ func (r *Report) addViolation(it *Interp, label, msg string, extra []*Term) {
 	} else {
 		r.Inconclusive["model extraction for "+label]++
 	}
+	it.fillFixed(v)
 	r.Violations = append(r.Violations, v)
 }
 
@@ -158,7 +159,14 @@ func (it *Interp) recordViolation(label, msg string, m Model) {
 			v.Model[in.Name] = modelVal(cv, it.inputMeta[in.Name])
 		}
 	}
+	it.fillFixed(v)
 	r.Violations = append(r.Violations, v)
+}
+
+func (it *Interp) fillFixed(v *Violation) {
+	for name, val := range it.fixed {
+		v.Model[name] = modelVal(val, "int")
+	}
 }
 
 // assert records a harness assertion. Assertions that are not decided syntactically (term identity, known
@@ -288,6 +296,7 @@ func (it *Interp) assertNearSplit(x, y *Term, label string) {
 							v.Model[in.Name] = modelVal(cv, it.inputMeta[in.Name])
 						}
 					}
+					it.fillFixed(v)
 					r.Violations = append(r.Violations, v)
 				}
 				return
@@ -337,6 +346,7 @@ func (it *Interp) assertNearSplit(x, y *Term, label string) {
 								v.Model[in.Name] = modelVal(cv, it.inputMeta[in.Name])
 							}
 						}
+						it.fillFixed(v)
 						r.Violations = append(r.Violations, v)
 					}
 					return
